@@ -19,6 +19,11 @@ func (e *Engine) execCall(st *State, th *Thread, fr *Frame, in ssa.Instruction, 
 
 // invoke performs a call described by c with already evaluated callee value and args.
 func (e *Engine) invoke(st *State, th *Thread, fr *Frame, c *ssa.CallCommon, callee Value, args []Value, in ssa.Instruction) {
+	e.invokeC(st, th, fr, c, callee, args, nil)
+}
+
+// invokeC is invoke with a commit hook that runs once the call can no longer be re-executed.
+func (e *Engine) invokeC(st *State, th *Thread, fr *Frame, c *ssa.CallCommon, callee Value, args []Value, commit func()) {
 	if c.IsInvoke() {
 		recv, ok := callee.(IfaceV)
 		if !ok {
@@ -32,7 +37,7 @@ func (e *Engine) invoke(st *State, th *Thread, fr *Frame, c *ssa.CallCommon, cal
 			panic(engErr("method %s not found on %v", c.Method.Name(), recv.t))
 		}
 		args = append([]Value{recv.v}, args...)
-		e.callFn(st, th, fn, args, nil, c.Pos())
+		e.callFn(st, th, fn, args, nil, c.Pos(), commit)
 		return
 	}
 	fv, ok := callee.(FuncV)
@@ -41,13 +46,16 @@ func (e *Engine) invoke(st *State, th *Thread, fr *Frame, c *ssa.CallCommon, cal
 	}
 	if fv.bi != nil {
 		res := e.builtin(st, th, fv.bi, args, c)
+		if commit != nil {
+			commit()
+		}
 		e.deliverResult(st, th, res)
 		return
 	}
 	if fv.fn == nil {
 		panic(goPanic{"call of nil function"})
 	}
-	e.callFn(st, th, fv.fn, args, fv.binds, c.Pos())
+	e.callFn(st, th, fv.fn, args, fv.binds, c.Pos(), commit)
 }
 
 func fnName(fn *ssa.Function) string {
@@ -57,14 +65,21 @@ func fnName(fn *ssa.Function) string {
 	return fn.String()
 }
 
-func (e *Engine) callFn(st *State, th *Thread, fn *ssa.Function, args []Value, binds []Value, pos token.Pos) {
+func (e *Engine) callFn(st *State, th *Thread, fn *ssa.Function, args []Value, binds []Value, pos token.Pos, commit func()) {
 	name := fnName(fn)
 	if sub, ok := e.subst[name]; ok {
+		fn = sub
+		name = fnName(fn)
+	} else if sub, ok := e.recvSubst[name]; ok {
+		args = append([]Value{IfaceV{t: fn.Signature.Recv().Type(), v: args[0]}}, args[1:]...)
 		fn = sub
 		name = fnName(fn)
 	}
 	if fn.Synthetic == "package initializer" {
 		if e.initOK == nil || fn.Pkg == nil || !e.initOK(fn.Pkg) {
+			if commit != nil {
+				commit()
+			}
 			e.deliverResult(st, th, nil)
 			return
 		}
@@ -72,6 +87,9 @@ func (e *Engine) callFn(st *State, th *Thread, fn *ssa.Function, args []Value, b
 	if h, ok := intrinsics[name]; ok {
 		e.funcsUsed["intrinsic:"+name] = true
 		res := h(e, st, th, args, pos)
+		if commit != nil {
+			commit()
+		}
 		e.deliverResult(st, th, res)
 		return
 	}
@@ -82,7 +100,11 @@ func (e *Engine) callFn(st *State, th *Thread, fn *ssa.Function, args []Value, b
 	if len(th.frames) > e.cfg.MaxDepth {
 		panic(inconclusive{"call depth limit"})
 	}
-	th.frames = append(th.frames, e.newFrame(fn, args, binds))
+	nf := e.newFrame(fn, args, binds)
+	if commit != nil {
+		commit()
+	}
+	th.frames = append(th.frames, nf)
 	st.steps++
 }
 
